@@ -54,6 +54,9 @@ type c11Case struct {
 	Vec     []int      `json:"vec"` // per node: 0 = never gets a vector, 1 = vector added before the ops, 2 = after the ops
 	Ops     []c11Op    `json:"ops"`
 	Queries []c11Query `json:"queries"`
+	// Tail: what happens between building the graph and asking: "" (nothing), "restart", "rewrite" (log
+	// compaction), "rewrite+restart", "snapshot+restart". The answers must not depend on it.
+	Tail string `json:"tail,omitempty"`
 }
 
 func c11Node(i int) string { return fmt.Sprintf("n%d", i) }
